@@ -321,4 +321,18 @@ extern iface.LegacyAggregatorFunction.Result
 
 extern iface.LegacyAggregatorFunction.New
   props C17
+
+// ---- process-wide caches of the expression bridge: entries are keyed by the exact expression text
+func (*ExprBridge).CompileExpressionWithStreamSQLFunctions
+  props C20 C06
+  modifies *
+  before Load program-cache-read-under-the-exact-expression-text: $arg1 == boxof(expression, string)
+  before Store program-cache-written-under-the-exact-expression-text: $arg1 == boxof(expression, string)
+  before Compile compiles-the-expression-it-was-given: $arg0 == expression
+
+func (*ExprBridge).preprocessCached
+  props C20 C06
+  modifies *
+  before Load preprocess-cache-read-under-the-exact-expression-text: $arg1 == boxof(expression, string)
+  before Store preprocess-cache-written-under-the-exact-expression-text: $arg1 == boxof(expression, string)
 @*/
